@@ -995,11 +995,17 @@ namespace BitSerializer::Convert::Utf
 			assert(mStartDataPtr <= mEndDataPtr);
 			if (mInputStream.eof())
 			{
-				// Handle uncompleted sequence at the end of file
-				if (result.ErrorCode == UtfEncodingErrorCode::UnexpectedEnd && Detail::HandleEncodingError(outStr, mEncodingErrorPolicy, mErrorMark))
+				// Handle uncompleted sequence at the end of file (including the case when left only part of code unit)
+				const bool hasIncompleteCodeUnit = result.ErrorCode == UtfEncodingErrorCode::Success
+					&& mStartDataPtr != mEndDataPtr && static_cast<size_t>(mEndDataPtr - mStartDataPtr) < sizeof(typename TUtf::char_type);
+				if (result.ErrorCode == UtfEncodingErrorCode::UnexpectedEnd || hasIncompleteCodeUnit)
 				{
-					mStartDataPtr = mEndDataPtr = mEncodedBuffer;
-					return EncodedStreamReadResult::Success;
+					if (Detail::HandleEncodingError(outStr, mEncodingErrorPolicy, mErrorMark))
+					{
+						mStartDataPtr = mEndDataPtr = mEncodedBuffer;
+						return EncodedStreamReadResult::Success;
+					}
+					return EncodedStreamReadResult::DecodeError;
 				}
 				return result.ErrorCode == UtfEncodingErrorCode::Success ? EncodedStreamReadResult::Success : EncodedStreamReadResult::DecodeError;
 			}
